@@ -70,9 +70,90 @@ func (m *Matcher) eqTerms(a, b *Term) (bool, string) {
 	}
 	m.nCmp++
 	valid := 0
+	// boundary-directed sampling: integer parameters (and input lengths) are steered onto the values at which
+	// some comparison of either term flips (m == 8, n >= 750000, ...) on every third point
+	type crit struct {
+		sym  *Symbol // parameter symbol, or nil for a length
+		dom  string  // Dom key for lengths
+		vals []int64
+	}
+	var crits []crit
+	both := m.S.mkOp("tuple", TTuple, a, b)
+	for i, ps := range [][]*Term{m.A.Params, m.B.Params} {
+		_ = i
+		for _, pt := range ps {
+			if pt.K != KSym {
+				continue
+			}
+			if pt.Ty == TInt {
+				if vs, _ := criticalInts(both, pt); len(vs) > 0 {
+					crits = append(crits, crit{sym: pt.Sym, vals: vs})
+				}
+			} else if pt.Ty == TRef {
+				ln := m.S.Op("len", TInt, pt)
+				if vs, _ := criticalInts(both, ln); len(vs) > 0 {
+					crits = append(crits, crit{dom: "len:" + m.Env.canonOf(pt.Sym), vals: vs})
+				}
+			}
+		}
+	}
+	savedDom := map[string]Domain{}
+	defer func() {
+		for k, v := range savedDom {
+			if v.Hi < v.Lo {
+				delete(m.Env.Dom, k)
+			} else {
+				m.Env.Dom[k] = v
+			}
+		}
+		for _, c := range crits {
+			if c.sym != nil {
+				delete(m.Env.Over, c.sym)
+			}
+		}
+	}()
 	for k := 0; k < m.Points*4 && valid < m.Points; k++ {
 		seed := h64(m.Seed, "pt", k)
 		m.Env.Reset(seed)
+		for ci, c := range crits {
+			if c.sym != nil {
+				delete(m.Env.Over, c.sym)
+			} else if old, ok := savedDom[c.dom]; ok {
+				if old.Hi < old.Lo {
+					delete(m.Env.Dom, c.dom)
+				} else {
+					m.Env.Dom[c.dom] = old
+				}
+			}
+			if k%3 != 1 {
+				continue
+			}
+			v := c.vals[(k/3+ci)%len(c.vals)]
+			if v < 0 {
+				continue
+			}
+			if c.sym != nil {
+				// both sides' parameter symbols share the canonical id: override through the domain of that id
+				id := m.Env.canonOf(c.sym)
+				if _, ok := savedDom[id]; !ok {
+					if d, ok2 := m.Env.Dom[id]; ok2 {
+						savedDom[id] = d
+					} else {
+						savedDom[id] = Domain{Lo: 1, Hi: 0}
+					}
+				}
+				m.Env.Dom[id] = Domain{Lo: v, Hi: v}
+			} else {
+				if _, ok := savedDom[c.dom]; !ok {
+					if d, ok2 := m.Env.Dom[c.dom]; ok2 {
+						savedDom[c.dom] = d
+					} else {
+						savedDom[c.dom] = Domain{Lo: 1, Hi: 0}
+					}
+				}
+				m.Env.Dom[c.dom] = Domain{Lo: v, Hi: v}
+			}
+		}
 		// a point is admissible when both sides agree on being outside the panic region
 		inA, inB := false, false
 		for _, p := range m.preA {
